@@ -51,3 +51,42 @@ where
 pub fn log_inv(op: &'static str, a: i64, b: i64, c: i64) -> u64 {
     hist::log(op, a, b, c, "")
 }
+
+/// Ground truth about our descriptor table: what /proc/self/fd lists (inherited copies made by the
+/// exec-child fault live at >= 9000 and belong to "another process").
+pub fn list_fds() -> Vec<i32> {
+    let mut v: Vec<i32> = std::fs::read_dir("/proc/self/fd").map(|d| d.filter_map(|e| e.ok()).filter_map(|e| e.file_name().to_string_lossy().parse().ok()).collect()).unwrap_or_default();
+    // (the directory stream's own descriptor is gone again by now)
+    v.retain(|f| *f < 9000 && unsafe { sim::raw6(libc::SYS_fcntl, *f as i64, libc::F_GETFD as i64, 0, 0, 0, 0) } >= 0);
+    v.sort();
+    v
+}
+/// Initialise the library's lazily created statics, then report the descriptor table: the
+/// baseline for "everything the operation under test opened has been closed again".
+pub fn fd_baseline() -> Vec<i32> {
+    sim::suspend_fd_faults(true);
+    drop(ipc::channel::<u32>());
+    #[cfg(not(feature = "inproc"))]
+    {
+        let _ = ipc_channel::platform::OsIpcSender::get_max_fragment_size();
+    }
+    drop(ipc_channel::ipc::IpcSharedMemory::from_bytes(&[1, 2, 3]));
+    sim::suspend_fd_faults(false);
+    list_fds()
+}
+/// Descriptors open now that were not open at the baseline, with what the ledger knows about them.
+pub fn fds_beyond(base: &[i32]) -> Vec<String> {
+    let gl = sim::g();
+    list_fds()
+        .iter()
+        .filter(|f| !base.contains(f))
+        .map(|f| {
+            let i = &gl.fds[*f as usize];
+            if i.open {
+                format!("{} ({}{})", f, match i.kind { sim::K_SOCK => "socket", sim::K_SHM => "shared memory", sim::K_DUP => "dup", sim::K_EPOLL => "epoll", _ => "other" }, if i.via == 1 { ", received in a message" } else { "" })
+            } else {
+                format!("{} (unknown to the ledger)", f)
+            }
+        })
+        .collect()
+}
